@@ -551,6 +551,29 @@ def unary(ctx, cname):
                     oks, singles = call(lambda: [build(cname, [kk]).interp(0.3) for kk in ks])
                     if oks:
                         compare(ctx, cid, cname + '.interp', P, res, singles, n)
+    if cname in ('Twist3', 'Twist2'):
+        # one twist, a vector of joint values, either unit: element i is what the scalar call with value i gives (whatever a unit means for a
+        # prismatic joint, it means the same in both spellings)
+        import spatialmath as sm
+        TW = getattr(sm, cname)
+        kinds = [('revolute', lambda: TW.Revolute([0, 0, 1], [1, 2, 0]) if cname == 'Twist3' else TW.Revolute([1, 2])), ('prismatic', lambda: TW.Prismatic([0, 1, 0]) if cname == 'Twist3' else TW.Prismatic([0, 1])),
+                 ('general', lambda: TW(value(cname, 3)))]
+        for (kn, mk), u, form in itertools.product(kinds, ('rad', 'deg'), ('list', 'array')):
+            cid = 'C09/%s/exp/thetavec/%s/%s/%s' % (cname, kn, u, form)
+            if not ctx.want(cid):
+                continue
+            ctx.case(cid, key=cid)
+            th = [20.0, 45.0, 80.0, -30.0] if u == 'deg' else [0.3, 0.8, 1.4, -0.5]
+            P = dict(cls=cname, acc='exp', n=4, mode='1xS', unit=u, kind=kn)
+            import io, contextlib
+            with contextlib.redirect_stdout(io.StringIO()):         # (the library prints a remark for prismatic twists in degree mode)
+                ok, res = call(lambda: mk().exp(th if form == 'list' else np.array(th), u))
+                oks, singles = call(lambda: [mk().exp(t_, u) for t_ in th]) if ok else (False, None)
+            if not ok:
+                ctx.fail(cid, cname + '.exp', 'raises:' + type(res).__name__, P, 'exp over 4 joint values raised %r' % (res,))
+                continue
+            if oks:
+                compare(ctx, cid, cname + '.exp', P, res, singles, 4)
     if cname == 'UnitQuaternion':
         # vector of s with a destination on the other hemisphere, with and without the shorter-arc option
         for n, sh in itertools.product(range(2, 6), (False, True)):
@@ -567,6 +590,29 @@ def unary(ctx, cname):
                 else:
                     singles = [build(cname, [3]).interp(s, dest=mkdest(), shortest=sh) for s in sv]
                     compare(ctx, cid, 'UnitQuaternion.interp', P, res, singles, n)
+        # two orientations close together (0.01 .. 0.1 rad apart), s away from 0, 1/2 and 1: a vector of s gives what each s gives alone
+        import spatialmath as sm
+        for dl, sh in itertools.product((0.01, 0.03, 0.05, 0.063, 0.08, 0.1), (False, True)):
+            cid = 'C09/UnitQuaternion/interp/close=%g/shortest=%d' % (dl, sh)
+            if ctx.want(cid):
+                ctx.case(cid, key=cid)
+                sv = [0.1, 0.21, 0.37, 0.79, 0.9]
+                q0 = value(cname, 3)
+                q1 = ref.qmul(q0, np.r_[math.cos(dl / 2), math.sin(dl / 2) * np.array([1.0, 2.0, -2.0]) / 3.0])
+                mkdest = lambda: sm.UnitQuaternion(q1.copy(), norm=False, check=False)
+                P = dict(cls=cname, acc='interp', n=5, mode='1xS', shortest=int(sh), close=dl)
+                for nm_, fv, fs in (('dest', lambda: build(cname, [3]).interp(list(sv), dest=mkdest(), shortest=sh), lambda s_: build(cname, [3]).interp(s_, dest=mkdest(), shortest=sh)),
+                                    ('nodest', lambda: mkdest().interp(list(sv), shortest=sh) if False else sm.UnitQuaternion(np.r_[math.cos(dl / 2), math.sin(dl / 2) * np.array([1.0, 2.0, -2.0]) / 3.0]).interp(list(sv), shortest=sh),
+                                     lambda s_: sm.UnitQuaternion(np.r_[math.cos(dl / 2), math.sin(dl / 2) * np.array([1.0, 2.0, -2.0]) / 3.0]).interp(s_, shortest=sh))):
+                    ok, res = call(fv)
+                    if not ok:
+                        ctx.fail(cid, 'UnitQuaternion.interp', 'raises:' + type(res).__name__, dict(P, form=nm_), 'interp over 5 s values raised %r' % (res,))
+                        continue
+                    singles = [fs(s_) for s_ in sv]
+                    # tighter than the generic comparison: the two computations are the same formula
+                    vals = [np.asarray(d, dtype=float) for d in getattr(res, 'data', [])]
+                    if len(vals) != 5 or any(np.abs(v_ - np.asarray(x_.data[0], dtype=float)).max() > 1e-12 for v_, x_ in zip(vals, singles)):
+                        ctx.fail(cid, 'UnitQuaternion.interp', 'mismatch', dict(P, form=nm_, what='value'), 'interp over a vector of s differs from the single-s calls (%s, %g rad apart)' % (nm_, dl))
         for n in range(1, 6):
             cid = 'C09/UnitQuaternion/interp/svec=%d' % n
             if ctx.want(cid):
